@@ -48,7 +48,7 @@ ASSUMPTIONS = [
 ]
 MIN_NONTRIVIAL = {"quick": 9000, "thorough": 30000}
 MIN_OUTCOMES = {"quick": 12000, "thorough": 40000}
-MIN_SUB_TRACES = {"weights": 100, "kernel1d": 40, "coverage": 2000, "eval": 1000, "derivs": 50, "subdivide": 30, "ffd_linear": 100, "ffd_grid": 50, "cpgrid": 20}
+MIN_SUB_TRACES = {"weights": 100, "kernel1d": 40, "coverage": 2000, "eval": 1000, "derivs": 50, "subdivide": 30, "ffd_linear": 100, "ffd_grid": 50, "cpgrid": 20, "ffd_hist": 100}
 
 EPS = {"f32": 2.0 ** -23, "f64": 2.0 ** -52}
 DT = {"f32": torch.float32, "f64": torch.float64}
@@ -681,6 +681,110 @@ def case_ffd_grid(case, ctx):
                 return
 
 
+def case_ffd_hist(case, ctx):
+    """Histories of evaluate / grid_(2n-1) / accessor copy grid(fine) on FFD and SVFFD, Parameter and buffer kinds.
+    Observed through tensor() (no explicit update(): a stale buffered field would be returned) and, for the SVFFD, the
+    buffered velocity spline v (the displacement exp(v) is not refinement invariant). Oracle: the spline field on the
+    current grid equals the ORIGINAL coefficients' exact cubic B-spline evaluated at the current samples."""
+    import deepali.spatial as S
+    from torch.nn import Parameter
+
+    cls_name, kind, hist, size_x, stride_x = case["cls"], case["kind"], case["hist"], case["size"], case["stride"]
+    D = len(size_x)
+    base = f"C14/ffd_hist/{cls_name}/kind={kind}/hist={hist}"
+    ctx.acc.state("ffd_hist", cls_name, kind, hist, tuple(size_x), tuple(stride_x))
+    shape_t, stride_t = size_x[::-1], stride_x[::-1]
+    g0 = ctx.call(base + "/grid", _grid, _grid_spec(size_x, "unit"))
+    cp = ctx.call(base + "/grid_size", _real_cp, shape_t, stride_t)
+    if g0 is None or cp is None:
+        return
+    K = int(np.prod(cp))
+    ch = np.array([1.0, 2.0, 3.0][:D]).reshape((1, D) + (1,) * D)
+    p0 = torch.eye(K, dtype=torch.float32).reshape((K, 1) + tuple(cp)) * torch.tensor(ch, dtype=torch.float32)
+    pin = Parameter(p0.clone()) if kind == "param" else p0.clone()
+    cls = getattr(S, cls_name)
+    f = ctx.call(base + "/construct", lambda: cls(g0, params=pin, stride=tuple(stride_x)))
+    if f is None:
+        return
+    is_sv = cls_name != "FreeFormDeformation"
+
+    def field(obj, sig):
+        """spline field of obj via tensor() (implicit update only if nothing is buffered)."""
+        u = ctx.call(sig + "/tensor", obj.tensor)
+        if u is None:
+            return None
+        if is_sv:
+            v = ctx.call(sig + "/v", lambda: obj.v)
+            return v
+        return u
+
+    def expect(cur_size_x, factor_x):
+        mats = [rb.operator_1d(n, s * fa, m) for n, s, fa, m in zip(cp, stride_t, factor_x[::-1], cur_size_x[::-1])]
+        return _kron_expected(mats)[:, None] * ch
+
+    def judge(obj, sig, cur_size_x, factor_x, what):
+        u = field(obj, sig)
+        if u is None:
+            return False
+        if ctx.observe(("ffd_hist", cls_name, kind, hist, tuple(size_x), tuple(stride_x), sig), u):
+            ctx.acc.nontriv("ffd_hist", cls_name, kind, hist, tuple(size_x), tuple(stride_x), sig)
+        if tuple(u.shape[2:]) != tuple(cur_size_x[::-1]):
+            ctx.bad(sig + "/samples", f"{what}: field has shape {tuple(u.shape)} but the grid has size {cur_size_x} (stale or uncovered field)")
+            return False
+        ds = ctx.call(sig + "/data_shape", lambda: (tuple(obj.data_shape), tuple(obj.data().shape)))
+        if ds is None:
+            return False
+        if ds[1][1:] != ds[0]:
+            ctx.bad(sig + "/data_shape", f"{what}: parameters {ds[1]} but data_shape {ds[0]}")
+            return False
+        return _cmp(ctx, sig + "/function", _np(u), expect(cur_size_x, factor_x), C * EPS["f32"] * 3 * D * 3, f"{what}: grid {size_x} stride {stride_x}")
+
+    def refine(obj, sig, cur, factor, inplace=True):
+        new = [2 * n - 1 for n in cur]
+        g2 = ctx.call(sig + "/resize", lambda: obj.grid().resize(tuple(new)))
+        if g2 is None:
+            return None
+        r = ctx.call(sig + ("/grid_" if inplace else "/grid(copy)"), obj.grid_ if inplace else obj.grid, g2)
+        if r is None:
+            return None
+        return r, new, [fa * 2 for fa in factor]
+
+    cur, factor = list(size_x), [1] * D
+    steps = {"eval-grid_-eval": ["e", "g", "e"], "grid_-eval-grid_-eval": ["g", "e", "g", "e"], "eval-grid_-grid_-eval": ["e", "g", "g", "e"], "copy": ["e", "c"], "copy-first": ["c"]}[hist]
+    for i, op in enumerate(steps):
+        sig = f"{base}/step={i + 1}"
+        ctx.acc.trace("ffd_hist", depth=i + 1)
+        if op == "e":
+            if not judge(f, sig + "/evaluate", cur, factor, "evaluate"):
+                return
+        elif op == "g":
+            r = refine(f, sig, cur, factor)
+            if r is None:
+                return
+            _, cur, factor = r
+        elif op == "c":
+            fp = tensor_bytes(f.data())
+            pobj = f.params
+            r = refine(f, sig, cur, factor, inplace=False)
+            if r is None:
+                return
+            c, cnew, cfac = r
+            if c is f:
+                ctx.bad(sig + "/grid(copy)/same-object", "grid(arg) returned the transformation itself")
+                return
+            if not judge(c, sig + "/copy", cnew, cfac, "refined copy"):
+                return
+            # the original: same coefficients (bits), same grid, same function
+            if tensor_bytes(f.data()) != fp or tuple(f.data().shape) != (K, D) + tuple(cp):
+                ctx.bad(sig + "/original/params-changed", f"coefficients of the original changed when a refined copy was made: shape {tuple(f.data().shape)}, was {(K, D) + tuple(cp)}")
+                return
+            if [int(n) for n in f.grid().size()] != cur:
+                ctx.bad(sig + "/original/grid-changed", f"grid of the original is now {f.grid().size()}")
+                return
+            if not judge(f, sig + "/original", cur, factor, "original after making a refined copy"):
+                return
+
+
 def case_cpgrid(case, ctx):
     from deepali.core import bspline as B
 
@@ -729,6 +833,7 @@ SUBS = {
     "ffd_linear": case_ffd_linear,
     "ffd_grid": case_ffd_grid,
     "cpgrid": case_cpgrid,
+    "ffd_hist": case_ffd_hist,
 }
 
 
@@ -775,8 +880,8 @@ def cases_eval(tier):
                         continue  # quick: N layout in float64, C and NC layouts in float32
                     out.append({"sub": "eval", "shape": [m], "stride": [s], "layout": layout, "dtype": dk, "forms": forms_all if layout == "N" else ["shape"]})
     # D = 2: sizes x strides (per axis), incl. non-divisible pairs
-    sz = SIZES if tier == "thorough" else [1, 2, 5, 7]
-    st = STRIDES if tier == "thorough" else [1, 2, 3, 5]
+    sz = SIZES if tier == "thorough" else [1, 2, 7]
+    st = STRIDES if tier == "thorough" else [1, 2, 5]
     for shape in itertools.product(sz, repeat=2):
         for stride in itertools.product(st, repeat=2):
             out.append({"sub": "eval", "shape": list(shape), "stride": list(stride), "layout": "N", "dtype": "f64", "forms": forms_all if tier == "thorough" else ["shape", "size", "kernel"]})
@@ -792,11 +897,11 @@ def cases_eval(tier):
         shapes3 = list(itertools.product(SIZES, repeat=3))
         strides3 = [(1, 2, 3), (3, 5, 2), (8, 1, 2), (2, 2, 2), (5, 3, 1), (2, 8, 5), (1, 1, 1), (3, 1, 8)]
     else:
-        shapes3 = [(1, 2, 5), (5, 7, 2), (7, 1, 12), (2, 5, 7), (12, 2, 1), (5, 5, 5)]
-        strides3 = [(1, 2, 3), (3, 5, 2), (8, 1, 2), (2, 2, 2), (5, 3, 1)]
+        shapes3 = [(1, 2, 5), (5, 7, 2), (7, 1, 12), (2, 5, 7)]
+        strides3 = [(1, 2, 3), (3, 5, 2), (8, 1, 2), (2, 2, 2)]
     for shape in shapes3:
         for stride in strides3:
-            out.append({"sub": "eval", "shape": list(shape), "stride": list(stride), "layout": "NC", "dtype": "f64", "forms": ["shape", "size", "kernel"], "max_impulses": 400})
+            out.append({"sub": "eval", "shape": list(shape), "stride": list(stride), "layout": "NC", "dtype": "f64", "forms": ["shape", "size", "kernel"], "max_impulses": 400 if tier == "thorough" else 160})
     return out
 
 
@@ -866,7 +971,7 @@ def cases_ffd_grid(tier):
         for s in (1, 2, 5):
             out.append({"sub": "ffd_grid", "size": [m], "stride": [s], "steps": [[0], [0]], "transpose": False, "grid": "unit"})
     # D = 2: every size in [3,17]^2 (thorough) / [3,9]^2 (quick)
-    hi = 17 if tier == "thorough" else 8
+    hi = 17 if tier == "thorough" else 7
     strides2 = [(1, 1), (2, 3), (5, 5), (4, 2)]
     for nx in range(3, hi + 1):
         for ny in range(3, hi + 1):
@@ -890,6 +995,21 @@ def cases_ffd_grid(tier):
     return out
 
 
+def cases_ffd_hist(tier):
+    out = []
+    confs = [([5, 4], [2, 3]), ([4, 6], [1, 1]), ([6], [2]), ([3, 4, 3], [2, 1, 3])]
+    if tier == "thorough":
+        confs += [([7, 5], [4, 2]), ([9], [5]), ([4, 3, 5], [1, 2, 2])]
+    for size, stride in confs:
+        for cls in ("FreeFormDeformation", "StationaryVelocityFreeFormDeformation"):
+            if cls != "FreeFormDeformation" and len(size) == 1:
+                continue  # the SVFFD's scaling-and-squaring (ExpFlow / warp_image) does not accept 1-D fields: not a B-spline matter
+            for kind in ("param", "buffer"):
+                for hist in ("eval-grid_-eval", "grid_-eval-grid_-eval", "eval-grid_-grid_-eval", "copy", "copy-first"):
+                    out.append({"sub": "ffd_hist", "cls": cls, "kind": kind, "hist": hist, "size": size, "stride": stride})
+    return out
+
+
 def cases_cpgrid(tier):
     out = []
     rot = [[0.8, -0.6], [0.6, 0.8]]
@@ -909,14 +1029,15 @@ def cases_cpgrid(tier):
 
 
 GENERATORS = [
-    ("weights", cases_weights, 24),
-    ("coverage", cases_coverage, 32),
-    ("eval", cases_eval, 12),
-    ("derivs", cases_derivs, 12),
-    ("subdivide", cases_subdivide, 8),
-    ("ffd_linear", cases_ffd_linear, 40),
-    ("ffd_grid", cases_ffd_grid, 6),
-    ("cpgrid", cases_cpgrid, 12),
+    ("weights", cases_weights, 100),
+    ("coverage", cases_coverage, 128),
+    ("eval", cases_eval, 40),
+    ("derivs", cases_derivs, 48),
+    ("subdivide", cases_subdivide, 24),
+    ("ffd_linear", cases_ffd_linear, 160),
+    ("ffd_grid", cases_ffd_grid, 24),
+    ("cpgrid", cases_cpgrid, 40),
+    ("ffd_hist", cases_ffd_hist, 16),
 ]
 
 
@@ -942,6 +1063,8 @@ def _case_size(case):
         return len(case["chain"])
     if sub == "ffd_grid":
         return len(case["steps"])
+    if sub == "ffd_hist":
+        return case["hist"].count("-") + 1
     return 1
 
 
